@@ -39,13 +39,19 @@ RULE = (
     "genealogy (3-8 tips, serial or contemporaneous) + PiecewiseConstantCoalescentGridModel (generated grid / "
     "cutoff) + GMRF on log theta + Gamma prior on the precision; phylo = 4-5 taxon unrooted HKY (+Weibull) "
     "likelihood on a generated alignment with priors on branch lengths, kappa (plain or log-parameterised with "
-    "Jacobian), frequencies, shape; optionally a flat prior on the branch lengths}; 1-5 operators drawn from "
+    "Jacobian), frequencies, shape}; 1-5 operators drawn from "
     "{ScalerOperator on 1-3 positive parameters, SlidingWindowOperator on 1-3 parameters that are unconstrained or "
     "positive-without-validation (proposals outside the support give a non-finite target: outright rejection), "
     "DirichletOperator on a simplex, GMRFPiecewiseCoalescentBlockUpdatingOperator on (log theta, precision), HMCOperator "
     "on 1-3 toy parameters, unconstrained or positive sampled without transform with step sizes up to 1.5 (trajectories "
     "that leave the support are retried with a fresh momentum; ten failures = infinite ratio = outright rejection) (steps 1-8, identity / diagonal / dense mass, no adaptor or AdaptiveStepSize)} with generated "
-    "weights, initial tuning parameters, target acceptance probabilities and adaptation on / off; 20-200 "
+    "weights, initial tuning parameters, target acceptance probabilities and adaptation on / off (HMC: generated "
+    "divergence_threshold incl. small values; block update: generated stop_value / max_iterations through the constructor); "
+    "every sampled parameter is written as a Parameter or (about half of them) as a slice ViewParameter 'a:b' / strided "
+    "'a:b:k' / index-list ('b:a:-1') view of a larger base, a CatParameter of two Parameters, or (positive ones) a "
+    "TransformedParameter exp(x) with the target a density in the transformed variable - the chain state is the list of "
+    "underlying Parameters including the part of a base no view covers; HMC only on plain Parameters (it raises "
+    "AttributeError on the others); 20-200 "
     "iterations; 1-2 loggers (file Logger with generated delimiter / ContainerLogger, every in 1,2,3,7) logging all "
     "parameters and the joint; torch.manual_seed from the case. Every transition is checked against (a) the target "
     "from a fresh rebuild of the specification at the proposed values, (b) the decision rule with the recorded "
@@ -75,7 +81,15 @@ ASSUMPTIONS = [
     "pushed through a numpy reference leapfrog with closed-form gradients of the toy target; H = K0 - K1. HMC transitions "
     "whose reference trajectory amplifies a 1e-9 perturbation more than 1e3 times (unstable step size) are only checked "
     "for (a), (b), (d)",
-    "HMC is generated on toy targets only (closed-form gradients); the integrator itself is C16's subject",
+    "HMC is generated on toy targets only (closed-form gradients); the integrator itself is C16's subject. An infinite "
+    "ratio from HMC is accepted as 'no proposal' only if the reference trajectory of the last recorded momentum also fails; "
+    "if that trajectory is a good proposal the true ratio is K0 - K1 (kind hastings)",
+    "non-plain parameters: the Hastings oracle works on the values the operator sees (resolved from the bases); a proposal "
+    "may change only the covered part of the bases of the operator's parameters; restoration after a reject is bit-identical "
+    "on the bases; values seen through exp(log(.)) count as unchanged up to 1e-13 relative in the proposal-form check only",
+    "block update tolerance 1e-10 * max(1,|H|) * max(1, amplification) (torch and numpy agree to 5e-14 on HEAD); the numpy "
+    "reference follows the operator's stopping rule: start at the conditioning field, iterate while |gradient| > stop_value "
+    "and fewer than max_iterations steps",
     "tuning direction: for each operator type the harness measures, with common random numbers on a fixed small target, "
     "whether the squared jump of the parameters whose proposal the tuning parameter scales (block update: the "
     "precision) grows or shrinks with tuning_parameter; DualAveragingStepSize is not generated (not monotone per step)",
@@ -133,6 +147,11 @@ def toy_block(draw, i, kind):
     b = {"kind": kind, "id": "x%d" % i, "n": n}
     if kind == "normal":
         b.update(loc=[draw(fl(-3.0, 3.0)) for _ in range(n)], scale=[draw(logu(0.2, 5.0)) for _ in range(n)], init=[draw(fl(-3.0, 3.0)) for _ in range(n)])
+        # now and then the whole block lives on a tiny absolute scale (values, moves and rejections of order 1e-9 .. 1e-12:
+        # far below the absolute tolerance of any approximate comparison)
+        unit = draw(st.sampled_from([None, None, None, None, 1e-9, 1e-12]))
+        if unit:
+            b.update(unit=unit, loc=[v * unit for v in b["loc"]], scale=[v * unit for v in b["scale"]], init=[v * unit for v in b["init"]])
     elif kind == "loggamma":
         b.update(conc=[draw(logu(0.5, 8.0)) for _ in range(n)], rate=[draw(logu(0.2, 5.0)) for _ in range(n)], init=[draw(fl(-2.0, 2.0)) for _ in range(n)])
     elif kind == "mvn":
@@ -190,8 +209,10 @@ def phylo_target(draw):
          "seqs": ["".join(draw(st.sampled_from("ACGTACGTACGTACGTN-")) for _ in range(nsites)) for _ in range(n)],
          "bl": [draw(logu(0.01, 0.5)) for _ in range(2 * n - 3)], "kappa": draw(logu(0.5, 8.0)), "kappa_log": draw(st.booleans()),
          "freqs": draw(simplex(4, spread=draw(fl(0.0, 1.5)))), "freqs_alpha": draw(fl(1.5, 5.0)),
-         # flat prior on the branch lengths: nothing validates them, a negative length makes the likelihood NaN
-         "flat_bl": draw(st.booleans())}
+         # (a flat prior on the branch lengths + a sliding window on them is NOT generated: a negative length is outside
+         # the domain of the likelihood, which then returns finite numbers that depend on the history of the instance,
+         # and the chain accepts such states; that is a mis-specified run, not an outright rejection)
+         "flat_bl": False}
     if draw(st.booleans()):
         p["shape"] = draw(logu(0.2, 5.0))
         p["categories"] = draw(st.integers(2, 4))
@@ -361,7 +382,9 @@ def subset(draw, ids, kmax=3):
 @st.composite
 def operators(draw, c):
     ps = params_of(c)
-    real = [i for i, k, _ in ps if k == "real"]
+    units = {b["id"]: b["unit"] for b in c.get("blocks", []) if b.get("unit")}
+    tiny = [i for i, k, _ in ps if i in units]  # sampled by a dedicated sliding window whose width is of their own scale
+    real = [i for i, k, _ in ps if k == "real" and i not in units]
     free = [i for i, k, _ in ps if k == "posfree"]  # positive, no transform, out of support = non-finite target
     pos = [i for i, k, _ in ps if k == "positive"] + free
     sim = [i for i, k, _ in ps if k == "simplex"]
@@ -391,13 +414,14 @@ def operators(draw, c):
         o["id"] = "op%d" % j
         if kind == "scaler":
             o["params"] = draw(subset(pos))
-            o["tuning"] = draw(logu(1e-3, 0.95))
+            # incl. scale factors within 1e-7..1e-2 of one (moves far smaller than any tolerance-based comparison)
+            o["tuning"] = draw(st.one_of(logu(1e-3, 0.95), logu(1e-3, 0.95), logu(1e-7, 1e-2).map(lambda e: 1.0 - e)))
         elif kind == "sliding":
             # on unconstrained parameters, or on positive ones whose out-of-support value gives a non-finite
             # target (outright rejection in MCMC.run); never on a parameter whose density validates its argument
             o["params"] = draw(subset(real + free + free))
             o["params"] = [i for k_, i in enumerate(o["params"]) if i not in o["params"][:k_]]
-            o["tuning"] = draw(logu(0.01, 10.0))
+            o["tuning"] = draw(st.one_of(logu(0.01, 10.0), logu(0.01, 10.0), logu(1e-7, 1e-2)))  # incl. tiny windows
         elif kind == "dirichlet":
             o["params"] = [draw(st.sampled_from(sim))]
             o["tuning"] = draw(logu(20.0, 2000.0))
@@ -405,6 +429,10 @@ def operators(draw, c):
         elif kind == "block":
             o["params"] = ["theta.log", "tau"]
             o["tuning"] = draw(st.one_of(st.just(1.0), logu(1.05, 5.0), logu(1.05, 5.0), logu(1.05, 5.0)))
+            # constructor keywords of the operator (not JSON attributes): stopping rule of its Newton-Raphson search
+            if draw(st.sampled_from([False, False, True])):
+                o["stop_value"] = draw(st.sampled_from([0.1, 2.0, 0.5, 1e-3, 5.0]))
+                o["max_iterations"] = draw(st.sampled_from([200, 2, 1, 3, 5]))
         else:
             # unconstrained parameters, and positive ones sampled without a transform: a trajectory that leaves
             # the support raises inside the operator (argument validation / NaN potential) and is retried
@@ -420,8 +448,16 @@ def operators(draw, c):
             else:
                 o["mass"] = _spd(draw, d, 0.3, 3.0)
             o["adaptor"] = draw(st.sampled_from(["none", "none", "adaptive"]))
+            # the threshold only triggers a message; None = default (1000)
+            o["divergence"] = draw(st.sampled_from([None, None, 1e-3, 0.05, 0.5, 5.0, "inf"]))
             if o["adaptor"] == "adaptive":
                 o["adapt"] = True
+        ops.append(o)
+    if tiny:
+        o = draw(op_common("sliding"))
+        o["id"] = "op%d" % len(ops)
+        o["params"] = draw(subset(tiny))
+        o["tuning"] = draw(logu(0.3, 10.0)) * min(units[i] for i in o["params"])
         ops.append(o)
     return ops
 
@@ -533,6 +569,8 @@ def op_spec(c, o, sizes):
     else:
         d.update(joint="joint", parameters=o["params"], mass_matrix=tt.P(o["id"] + ".mass", o["mass"]),
                  integrator={"id": o["id"] + ".leapfrog", "type": "LeapfrogIntegrator", "steps": o["steps"], "step_size": o["tuning"]})
+        if o.get("divergence") is not None:
+            d["divergence_threshold"] = o["divergence"]
         if o.get("adaptor") == "adaptive":
             d["adaptors"] = [{"id": o["id"] + ".adaptor", "type": "AdaptiveStepSize", "integrator": o["id"] + ".leapfrog", "target_acceptance_probability": o["target_acc"]}]
             d["disable_adaptation"] = False
@@ -551,8 +589,13 @@ def mcmc_spec(c, tmp, containers):
         else:
             d = {"id": "logger%d" % j, "type": "ContainerLogger", "inputs": ids + ["joint"], "every": lg["every"], "container": containers[j]}
         loggers.append(d)
-    return {"id": "mcmc", "type": "MCMC", "joint": "joint", "iterations": c["iterations"], "operators": [op_spec(c, o, sizes) for o in c["ops"]],
+    return {"id": "mcmc", "type": "MCMC", "joint": "joint", "iterations": c["iterations"],
+            "operators": [o["id"] if _by_constructor(o) else op_spec(c, o, sizes) for o in c["ops"]],
             "loggers": loggers, "checkpoint": os.path.join(tmp, "checkpoint.json"), "checkpoint_frequency": 10**9, "every": c["every"]}
+
+
+def _by_constructor(o):
+    return o["type"] == "block" and ("stop_value" in o or "max_iterations" in o)
 
 
 def build_all(c, state, tmp=None, containers=None, with_mcmc=True):
@@ -561,6 +604,14 @@ def build_all(c, state, tmp=None, containers=None, with_mcmc=True):
         tt.build(s, dic)
     mc = None
     if with_mcmc:
+        for o in c["ops"]:
+            if _by_constructor(o):
+                # stop_value / max_iterations are keywords of the constructor only: the operator is made by its
+                # constructor from the objects of the specification and the MCMC specification refers to it by id
+                from torchtree.inference.mcmc.gmrf_block_updating import GMRFPiecewiseCoalescentBlockUpdatingOperator as B
+
+                dic[o["id"]] = B(o["id"], dic["coalescent"], dic["gmrf"], o["weight"], o["target_acc"], o["tuning"], disable_adaptation=not o["adapt"],
+                                 stop_value=o.get("stop_value", 0.1), max_iterations=o.get("max_iterations", 200))
         mc, _ = tt.build(mcmc_spec(c, tmp, containers), dic)
     return dic, mc
 
@@ -943,12 +994,13 @@ def hastings_oracle(c, o, op, r):
                 return None, "proposal_form", {"factor": f, "expected": fe, "scaler": A}
             if not (1.0 / A) * (1 - 1e-12) <= f <= A * (1 + 1e-12):
                 return None, "proposal_form", {"factor": f, "scaler": A}
-        H, mu_f, QW_f = block_reference(c, g0, t0, g1, t1)
+        rule = {"stop": o.get("stop_value", 0.1), "maxit": o.get("max_iterations", 200)}
+        H, mu_f, QW_f = block_reference(c, g0, t0, g1, t1, **rule)
         # round-off probe: the same reference with the fields perturbed by 1e-10; a Newton iteration that
         # diverges (or whose iteration count flips) amplifies it without bound
         sg = np.where(np.arange(len(g0)) % 2 == 0, 1.0, -1.0)
         eta = 1e-10
-        H2, _, _ = block_reference(c, g0 + eta * sg * np.maximum(1.0, np.abs(g0)), t0, g1 - eta * sg * np.maximum(1.0, np.abs(g1)), t1)
+        H2, _, _ = block_reference(c, g0 + eta * sg * np.maximum(1.0, np.abs(g0)), t0, g1 - eta * sg * np.maximum(1.0, np.abs(g1)), t1, **rule)
         amp = abs(H2 - H) / (eta * max(1.0, abs(H))) if math.isfinite(H) and math.isfinite(H2) else math.inf
         info.update(tau=t0, tau_new=t1, amplification=amp)
         if not amp < 1e3:
@@ -1106,6 +1158,7 @@ def _body(c, tmp):
     def fail(kind, detail, cls=None, **tags):
         if current["rep"] is not None:
             tags["rep"] = current["rep"]
+            tags.update(current.get("extra") or {})
         key = (kind, cls, repr(sorted(tags.items())))
         if key in reported:
             return
@@ -1173,6 +1226,7 @@ def _body(c, tmp):
         used_types.add(cls)
         where = {"iteration": r["epoch"], "operator": o["id"]}
         current["rep"] = sorted(set(REP_CLASS[rep_of(c, i)["rep"]] for i in o["params"]))
+        current["extra"] = {"field_rep": REP_CLASS[rep_of(c, "theta.log")["rep"]]} if o["type"] == "block" else {}
         labels["transition_on:" + "+".join(current["rep"])] = labels.get("transition_on:" + "+".join(current["rep"]), 0) + 1
         if not same(cur, r["before"]):
             fail("state_changed_between_iterations", dict(where, changed=diff_ids(cur, r["before"])), cls)
@@ -1195,6 +1249,13 @@ def _body(c, tmp):
         unguarded = False
         if gave_up:
             labels["operator_gave_up"] = labels.get("operator_gave_up", 0) + 1
+            if cls == "HMCOperator" and r["momenta"]:
+                # an infinite ratio says "no proposal could be made"; if the trajectory of the last momentum drawn is a
+                # perfectly good proposal (reference leapfrog finite, inside the support, guarded) the true ratio is
+                # K0 - K1 and the move has a positive acceptance probability
+                H_would, problem, info = hastings_oracle(c, o, op, dict(r, proposed=r.get("proposed", r["before"])))
+                if H_would is not None and not problem and not same(r["proposed"], r["before"]):
+                    fail("hastings", dict(where, reported=H_impl, reference=H_would, trials=len(r["momenta"])), cls)
         else:
             H_ref, problem, info = hastings_oracle(c, o, op, r)
             if problem:
@@ -1211,7 +1272,8 @@ def _body(c, tmp):
                 scale = max(1.0, abs(H_ref), info.get("scale", 1.0) ** 2 if cls == "HMCOperator" else 1.0)
                 tolh = 1e-8 * scale * (max(1.0, info.get("amplification", 1.0)) if cls == "HMCOperator" else 1.0)
                 if cls == BLOCK:
-                    tolh = 1e-6 * scale
+                    # torch and numpy agree to ~5e-14 on HEAD (amplification <= 1e3 by the guard)
+                    tolh = 1e-10 * scale * max(1.0, info.get("amplification", 1.0))
                 bad_h = math.isnan(H_impl) or (not math.isnan(H_ref) and not abs(H_impl - H_ref) <= tolh)
                 if bad_h:
                     fail("hastings", dict(where, reported=H_impl, reference=H_ref, **{k: v for k, v in info.items() if isinstance(v, float)}), cls)
@@ -1240,7 +1302,8 @@ def _body(c, tmp):
                     fail("density_not_at_proposed_state", dict(where, changed=diff_ids(calls[-1][1], r["proposed"])), cls)
                 f_prop = fresh(s_prop)
                 nchecked["a"] += 1
-                if not close(used, f_prop) and not (math.isnan(used) and math.isnan(f_prop)):
+                both_undefined = (math.isnan(used) or used == -math.inf) and (math.isnan(f_prop) or f_prop == -math.inf)
+                if not close(used, f_prop) and not both_undefined:
                     fail("stale_density", dict(where, used=used, fresh=f_prop, proposed=rnd(s_prop)), cls)
                 # ---- (b) decision
                 finite = math.isfinite(f_prop)
@@ -1450,5 +1513,5 @@ def selftest():
 
 def subchecks(tier):
     return [
-        Sub("runs", body, strategy=cases, quick=200, thorough=4000, raising_is_failure=True, shrink_s=40),
+        Sub("runs", body, strategy=(lambda: cases(max_iter=150)) if tier == "quick" else cases, quick=150, thorough=4000, raising_is_failure=True, shrink_s=40),
     ]
